@@ -98,6 +98,11 @@ CONFIGS = {
                                                event_likelihood_adjustment=True, **_T)),
     "pr_ela": dict(kind="lower", kw=dict(trend_preservation_method="mixed", nonparametric_qm=False, detrending=False,
                                           event_likelihood_adjustment=True, **_PR, **_T)),
+    # legitimate zero-valued settings (C09): a lower threshold of exactly 0 — only exact zeros are beyond it; floc = 0.0 is a fixed argument
+    "pr_thr0": dict(kind="lower", kw=dict(trend_preservation_method="mixed", nonparametric_qm=False, detrending=False,
+                                           lower_bound=0.0, lower_threshold=0.0, **_T)),
+    "skew_lthr0": dict(kind="unit", kw=dict(trend_preservation_method="bounded", nonparametric_qm=False, detrending=False,
+                                             lower_bound=0.0, lower_threshold=0.0, upper_bound=1.0, upper_threshold=1 - 1 / 64, **_T)),
 }
 
 
@@ -729,7 +734,7 @@ def _dates(rng):
     return np.array(dates, dtype=object)
 
 
-def correspondence_aux(rng, n_cases, tier, res):
+def correspondence_aux(rng, n_cases, tier, res, shuffle_prob=0.0):
     """`step1` / `step8` of the real code (annual cycle of upper bounds; rsds like) against the driver ops `step1`, `step8`"""
     from ibicus.debias import ISIMIP
     from ibicus.utils import day_of_year
@@ -758,6 +763,12 @@ def correspondence_aux(rng, n_cases, tier, res):
                     v = 0  # a stretch of the year where every value is zero: the cycle is 0 there (scaling 1)
                 vals.append(v)
             series.append(np.array(vals, dtype=float) / 64)
+        if shuffle_prob and rng.random() < shuffle_prob:  # C06: non-chronological storage (each series permuted with its dates)
+            perms = [np.random.RandomState(rng.randint(0, 2**31 - 1)).permutation(x.size) for x in series]
+            if same:
+                perms = [perms[2]] * 3
+            series = [x[p_] for x, p_ in zip(series, perms)]
+            tO, tH, tF = tO[perms[0]], tH[perms[1]], tF[perms[2]]
         obs, H, F = series
         with warnings.catch_warnings():
             warnings.simplefilter("ignore")
@@ -818,7 +829,7 @@ def correspondence_aux(rng, n_cases, tier, res):
 
 
 # ------------------------------------------------------------------ apply_location (step 1 + window loop + step 8)
-def correspondence_location(rng, n_cases, tier, res):
+def correspondence_location(rng, n_cases, tier, res, shuffle_prob=0.0):
     """the real `ISIMIP.apply_location` (running-window and month mode) against `Model.Isimip.applyLocationRW/Months` for
     configurations that need neither oracles nor draws (no detrending, no bound/threshold pair, KS off): this ties the
     composition `step1 -> Model.Skeleton loop with winFn -> step8` to the real code"""
@@ -847,6 +858,9 @@ def correspondence_location(rng, n_cases, tier, res):
             t = np.array([start + datetime.timedelta(days=j) for j in range(0, n, stride)], dtype=object)
             base = rng.randint(100, 20000)
             x = np.array([base + rng.randint(-640, 640) + int(300 * np.cos(2 * np.pi * d.timetuple().tm_yday / 365.25)) for d in t], dtype=float) / 64
+            if shuffle_prob and rng.random() < shuffle_prob:  # C06: non-chronological storage (values permuted with their dates)
+                perm = np.random.RandomState(rng.randint(0, 2**31 - 1)).permutation(t.size)
+                t, x = t[perm], x[perm]
             ts.append(t)
             xs.append(x)
         with Spy() as spy:
